@@ -122,10 +122,13 @@ impl QmcStepper for Mock {
     }
     fn get_energy_for_average_n(&self, average_n: f64, beta: f64) -> f64 {
         self.push(b'e');
-        let mut e = self.eargs.lock().unwrap();
-        e.push((average_n, beta));
+        let calls = {
+            let mut e = self.eargs.lock().unwrap();
+            e.push((average_n, beta));
+            e.len()
+        };
         if let Some(b) = self.budget {
-            if e.len() > b {
+            if calls > b {
                 panic!("mock: call budget exhausted");
             }
         }
@@ -882,10 +885,10 @@ fn mode_itime(a: &Args) {
             // the generic sampler, obtained by conversion
             let mut q = q.into_qmc();
             q.timesteps(g.range(0, 10) as usize, beta);
-            let c = q.get_cutoff();
+            let c = q.get_manager_ref().get_cutoff();
             itime_case("generic", &q, q.get_manager_ref(), c, |q| serde_json::to_string(q).unwrap());
         } else {
-            let c = q.get_cutoff();
+            let c = q.get_manager_ref().get_cutoff();
             itime_case("ising", &q, q.get_manager_ref(), c, |q| serde_json::to_string(q).unwrap());
         }
     }
@@ -903,21 +906,23 @@ fn mode_edge(_a: &Args) {
     run_measure("measure", 3, Some(5), 1.0, 0.5, &[3, 5], 0);
     // tempering driver, sampling period 0: `timesteps / sampling_freq` panics before the loop
     let mut g = SplitMix64::new(5);
-    for (s, f, nrep) in [(2usize, 0usize, 2usize), (0, 3, 2), (0, 0, 0), (3, 0, 0)] {
+    for (s, f, nrep) in [(2usize, 0usize, 2usize), (0, 3, 2), (0, 3, 0)] {
         let su = gen_setup(&mut g, false, 6, s, f, nrep);
         let (mut tc, _) = build_tc(&su, Some(5000));
         let (tx, rx) = std::sync::mpsc::channel();
         std::thread::spawn(move || {
             let r = catch(|| tc.timesteps_sample(6, s, f).len());
             let steps: usize = tc.graph_ref().iter().map(|(m, _)| m.g.age).sum();
-            let ecalls: usize = tc.graph_ref().iter().map(|(m, _)| m.eargs.lock().unwrap().len()).sum();
-            let _ = tx.send((r, steps, ecalls));
+            let _ = tx.send((r, steps));
         });
-        let out = match rx.recv_timeout(std::time::Duration::from_secs(5)) {
-            Ok((Ok(_), _, _)) => "returned".to_string(),
-            Ok((Err(p), steps, _)) if p.contains("budget") => format!("stuck steps={}", steps),
-            Ok((Err(_), steps, _)) => format!("panic steps={}", steps),
-            Err(_) => "hang".to_string(),
+        // "stuck": the loop was still spinning without having advanced a step when the mock's call budget
+        // (5000 energy evaluations) ran out, or (no replica to count calls) after 2 s
+        let out = match rx.recv_timeout(std::time::Duration::from_secs(2)) {
+            Ok((Ok(_), _)) => "returned".to_string(),
+            Ok((Err(p), 0)) if p.contains("budget") => "stuck".to_string(),
+            Ok((Err(p), steps)) => format!("panic steps={} {}", steps, if p.contains("divide by zero") { "div0" } else { "other" }),
+            Err(std::sync::mpsc::RecvTimeoutError::Timeout) => "stuck".to_string(),
+            Err(_) => "thread-died".to_string(),
         };
         emit(false, &format!("edge temper 6 {} {} {}", s, f, nrep), &out, None);
     }
